@@ -96,33 +96,46 @@ def check_resolution_box(g, region, res, anchor_xy, tol, crs_expected=True):
     l, b, r, t = region
     rx, ry = F(res[0]), F(res[1])
     A = g.affine
-    prove("B1_pixel_size", And(ex(A.a) == rx, ex(A.e) == ry, ex(A.b) == 0, ex(A.d) == 0))
+    # the replay runs in doubles: its comparisons get a slack of 1e-9 pixel (relative for the large
+    # quotients); the symbolic run is exact (eps = 0)
+    conc = symx.concrete_mode()
+    eps = F(1, 10**9) if conc else 0
+
+    def same(a_, b_, scale=1):
+        return abs(ex(a_) - ex(b_)) <= eps * scale * (1 + abs(ex(b_))) if conc else ex(a_) == ex(b_)
+
+    prove("B1_pixel_size", And(same(A.a, rx), same(A.e, ry), ex(A.b) == 0, ex(A.d) == 0))
     x0, y0, x1, y1, nx, ny = extent_of(g)
     lo_x, hi_x = (x0, x1) if rx > 0 else (x1, x0)
     lo_y, hi_y = (y0, y1) if ry > 0 else (y1, y0)
     ax, ay = abs(rx), abs(ry)
     tol = ex(tol)
+    sx_, sy_ = eps * (ax + abs(l) + abs(r)), eps * (ay + abs(b) + abs(t))  # slack in world units
     prove("shape_at_least_one", And(nx >= 1, ny >= 1))
-    prove("B2_cover_left", lo_x <= l + tol * ax)
-    prove("B2_cover_right", hi_x >= r - tol * ax)
-    prove("B2_cover_bottom", lo_y <= b + tol * ay)
-    prove("B2_cover_top", hi_y >= t - tol * ay)
-    prove("B3_minimal_left", lo_x > l - ax * (1 + tol))
-    prove("B3_minimal_right", hi_x < r + ax * (1 + tol))
-    prove("B3_minimal_bottom", lo_y > b - ay * (1 + tol))
-    prove("B3_minimal_top", hi_y < t + ay * (1 + tol))
-    prove("B3_strict_x", And(lo_x > l - ax, hi_x < r + ax), when=nx > 1)
-    prove("B3_strict_y", And(lo_y > b - ay, hi_y < t + ay), when=ny > 1)
+    prove("B2_cover_left", lo_x <= l + tol * ax + sx_)
+    prove("B2_cover_right", hi_x >= r - tol * ax - sx_)
+    prove("B2_cover_bottom", lo_y <= b + tol * ay + sy_)
+    prove("B2_cover_top", hi_y >= t - tol * ay - sy_)
+    prove("B3_minimal_left", lo_x > l - ax * (1 + tol) - sx_)
+    prove("B3_minimal_right", hi_x < r + ax * (1 + tol) + sx_)
+    prove("B3_minimal_bottom", lo_y > b - ay * (1 + tol) - sy_)
+    prove("B3_minimal_top", hi_y < t + ay * (1 + tol) + sy_)
+    prove("B3_strict_x", And(lo_x > l - ax - sx_, hi_x < r + ax + sx_), when=nx > 1)
+    prove("B3_strict_y", And(lo_y > b - ay - sy_, hi_y < t + ay + sy_), when=ny > 1)
     if anchor_xy is not None:
         fx, fy = anchor_xy
         qx = (lo_x - fx * ax) / ax
         qy = (lo_y - fy * ay) / ay
-        prove("B4_snapped_x", qx == symx.s_floor(qx))
-        prove("B4_snapped_y", qy == symx.s_floor(qy))
+        if conc:
+            prove("B4_snapped_x", abs(qx - round(qx)) <= F(1, 10**6) * (1 + abs(qx)) * F(1, 1000) + F(1, 10**6))
+            prove("B4_snapped_y", abs(qy - round(qy)) <= F(1, 10**6) * (1 + abs(qy)) * F(1, 1000) + F(1, 10**6))
+        else:
+            prove("B4_snapped_x", qx == symx.s_floor(qx))
+            prove("B4_snapped_y", qy == symx.s_floor(qy))
     else:
         # snapping off: pixel (0,0) sits on the region's corner selected by the resolution signs
-        prove("B4_floating_x", (lo_x == l) if rx > 0 else (hi_x == r))
-        prove("B4_floating_y", (lo_y == b) if ry > 0 else (hi_y == t))
+        prove("B4_floating_x", (abs(lo_x - l) <= sx_ if rx > 0 else abs(hi_x - r) <= sx_) if conc else ((lo_x == l) if rx > 0 else (hi_x == r)))
+        prove("B4_floating_y", (abs(lo_y - b) <= sy_ if ry > 0 else abs(hi_y - t) <= sy_) if conc else ((lo_y == b) if ry > 0 else (hi_y == t)))
 
 
 def h_from_bbox(res, anchor, tight, tolmode, pin):
